@@ -655,6 +655,39 @@ def handle(line: str) -> str:
             return "OK " + _json.dumps(st, sort_keys=True)
         except Exception as e:  # noqa
             return "BAD-REQUEST " + repr(e)
+    if cmd == "WALK":
+        try:
+            from metasequoia_sql import SQLParser, SQLType
+            from metasequoia_sql import analyzer as an
+            which, dialect = words[1], words[2]
+            text = "".join(chr(int(w)) for w in words[3:])
+            try:
+                sts = SQLParser.parse_statements(text, sql_type=SQLType[dialect])
+            except RecursionError:
+                return "PARSEERR Recursion"
+            except Exception as e:  # noqa
+                return "PARSEERR " + err_name(e)
+            if len(sts) != 1:
+                return "PARSEERR ParseErr"
+            q = sts[0]
+            table = {"tables_all": an.AllUsedQuoteTables, "tables_from": an.AllFromClauseUsedQuoteColumn, "tables_join": an.AllJoinClauseUsedQuoteColumn,
+                     "all": an.CurrentUsedQuoteColumn, "select": an.CurrentSelectClauseUsedQuoteColumn, "join": an.CurrentJoinClauseUsedQuoteColumn,
+                     "where": an.CurrentWhereClauseUsedQuoteColumn, "group_by": an.CurrentGroupByClauseUsedQuoteColumn,
+                     "having": an.CurrentHavingClauseUsedQuoteColumn, "order_by": an.CurrentOrderByClauseUsedQuoteColumn}
+            if which not in table:
+                return "BAD-REQUEST analyser"
+
+            def so(x):
+                return "-" if x is None else ("e" if x == "" else cps(x))
+            try:
+                r = table[which].handle(q)
+            except Exception as e:  # noqa
+                return "ERR " + err_name(e)
+            if which.startswith("tables"):
+                return "OK T[" + ",".join("%s:%s" % (so(t.schema_name), so(t.table_name)) for t in r) + "]"
+            return "OK C[" + ",".join("%s:%s:%s" % (so(c.table_name), so(c.column_name), "-" if c.column_idx is None else str(c.column_idx)) for c in r) + "]"
+        except Exception as e:  # noqa
+            return "BAD-REQUEST " + repr(e)
     if cmd == "CURSOR":
         try:
             return run_cursor(words[1:])
